@@ -108,7 +108,132 @@ struct Probe {
     src: &'static str,
 }
 
-const PRELUDE: &str = "use roto::{Runtime, library, Function, location};\nuse std::cell::{Cell, RefCell};\nuse std::rc::Rc;\nuse std::sync::{Arc, Mutex, atomic::{AtomicI64, Ordering}};\n";
+/// a probe with generated text
+struct GenProbe {
+    name: String,
+    must_reject: bool,
+    src: String,
+}
+
+/// (name, type, constructor, a use of `s: &T` that gives an i64, is the type Clone, is it Send + Sync)
+const STATE_KINDS: &[(&str, &str, &str, &str, bool, bool)] = &[
+    ("cell", "Cell<i64>", "Cell::new(1)", "{ s.set(s.get() + 1); s.get() }", true, false),
+    ("refcell", "RefCell<Vec<i64>>", "RefCell::new(vec![1])", "{ s.borrow_mut().push(1); s.borrow().len() as i64 }", true, false),
+    ("rc", "Rc<i64>", "Rc::new(1)", "{ let c = s.clone(); *c }", true, false),
+    ("oncecell", "OnceCell<i64>", "OnceCell::new()", "{ *s.get_or_init(|| 1) }", true, false),
+    ("rawptr", "*const i64", "std::ptr::null::<i64>()", "{ s.is_null() as i64 }", true, false),
+    ("receiver", "std::sync::mpsc::Receiver<i64>", "std::sync::mpsc::channel::<i64>().1", "{ s.try_recv().unwrap_or(1) }", false, false),
+    ("rc-refcell", "Rc<RefCell<i64>>", "Rc::new(RefCell::new(1))", "{ *s.borrow_mut() += 1; *s.borrow() }", true, false),
+    ("arc-cell", "Arc<Cell<i64>>", "Arc::new(Cell::new(1))", "{ s.set(s.get() + 1); s.get() }", true, false),
+    ("plain", "i64", "1i64", "{ *s }", true, true),
+    ("arc", "Arc<i64>", "Arc::new(1)", "{ **s }", true, true),
+    ("atomic", "Arc<AtomicI64>", "Arc::new(AtomicI64::new(1))", "{ s.fetch_add(1, Ordering::SeqCst) }", true, true),
+    ("mutex", "Arc<Mutex<i64>>", "Arc::new(Mutex::new(1))", "{ let mut g = s.lock().unwrap(); *g += 1; *g }", true, true),
+    ("rwlock", "Arc<RwLock<Vec<i64>>>", "Arc::new(RwLock::new(vec![1]))", "{ s.write().unwrap().push(1); s.read().unwrap().len() as i64 }", true, true),
+];
+
+const HOLDERS: &[&str] = &["library-closure", "function-new-closure", "constant-val", "constant-only", "type-only"];
+const ROUTES: &[&str] = &["scope-ref", "clone-spawn", "into-func-spawn", "runtime-ref-compile", "package-moved", "arc-handle"];
+
+const WRAP: &str = "#[derive(Clone)]\nstruct Wrap(TY);\nimpl PartialEq for Wrap { fn eq(&self, _: &Self) -> bool { true } }\n";
+
+/// where the state lives: (items before main, statements that leave `rt` behind)
+fn probe_holder(h: &str, k: &(&str, &str, &str, &str, bool, bool)) -> Option<(String, String)> {
+    let (_, ty, ctor, read, clone, _) = *k;
+    let wrap = WRAP.replace("TY", ty);
+    Some(match h {
+        "library-closure" => (
+            "const SCRIPT: &str = \"fn f() -> i64 { host() }\";\n".to_string(),
+            format!("    let state: {ty} = {ctor};\n    let rt = Runtime::from_lib(library! {{\n        let host = move || -> i64 {{ let s = &state; {read} }};\n    }}).unwrap();\n"),
+        ),
+        "function-new-closure" => (
+            "const SCRIPT: &str = \"fn f() -> i64 { host() }\";\n".to_string(),
+            format!("    let state: {ty} = {ctor};\n    let func = Function::new(\"host\", \"\", vec![], move || -> i64 {{ let s = &state; {read} }}, location!()).unwrap();\n    let rt = Runtime::from_lib(func).unwrap();\n"),
+        ),
+        _ if !clone => return None,
+        "constant-val" => (
+            format!("{wrap}const SCRIPT: &str = \"fn f() -> i64 {{ read(X) }}\";\n"),
+            format!("    let mut lib = roto::Library::new();\n    lib.add(Type::clone::<Val<Wrap>>(\"Wrap\", \"\", location!()).unwrap().into());\n    lib.add(Constant::new(\"X\", \"\", Val(Wrap({ctor})), location!()).unwrap().into());\n    lib.add(Function::new(\"read\", \"\", vec![\"w\"], |w: Val<Wrap>| -> i64 {{ let s = &w.0.0; {read} }}, location!()).unwrap().into());\n    let rt = Runtime::from_lib(lib).unwrap();\n"),
+        ),
+        "constant-only" => (
+            format!("{wrap}const SCRIPT: &str = \"fn f() -> i64 {{ 1 }}\";\n"),
+            format!("    let c = Constant::new(\"X\", \"\", Val(Wrap({ctor})), location!()).unwrap();\n    let rt = Runtime::from_lib(c).unwrap();\n"),
+        ),
+        _ => (
+            format!("{wrap}const SCRIPT: &str = \"fn f() -> i64 {{ 1 }}\";\n"),
+            "    let t = Type::clone::<Val<Wrap>>(\"Wrap\", \"\", location!()).unwrap();\n    let rt = Runtime::from_lib(t).unwrap();\n".to_string(),
+        ),
+    })
+}
+
+/// how two threads get at what was compiled from `rt`
+fn probe_route(r: &str, setup: &str) -> String {
+    let comp = "    let mut pkg = roto::FileTree::test_file(\"p\", SCRIPT, 0).compile(&rt).unwrap();\n    let f = pkg.get_function::<fn() -> i64>(\"f\").unwrap();\n";
+    let tail = match r {
+        "scope-ref" => format!("{comp}    std::thread::scope(|s| {{\n        s.spawn(|| f.call());\n        s.spawn(|| f.call());\n    }});\n"),
+        "clone-spawn" => format!("{comp}    let g = f.clone();\n    let t = std::thread::spawn(move || g.call());\n    f.call();\n    t.join().unwrap();\n"),
+        "into-func-spawn" => format!("{comp}    let g = f.clone().into_func();\n    let t = std::thread::spawn(move || g());\n    f.call();\n    t.join().unwrap();\n"),
+        "runtime-ref-compile" => "    std::thread::scope(|s| {\n        for _ in 0..2 {\n            s.spawn(|| {\n                let mut pkg = roto::FileTree::test_file(\"p\", SCRIPT, 0).compile(&rt).unwrap();\n                pkg.get_function::<fn() -> i64>(\"f\").unwrap().call()\n            });\n        }\n    });\n".to_string(),
+        "package-moved" => format!("{comp}    let t = std::thread::spawn(move || {{ let mut pkg = pkg; pkg.get_function::<fn() -> i64>(\"f\").unwrap().call() }});\n    f.call();\n    t.join().unwrap();\n"),
+        _ => format!("{comp}    let a = Arc::new(f);\n    let b = a.clone();\n    let t = std::thread::spawn(move || b.call());\n    a.call();\n    t.join().unwrap();\n"),
+    };
+    format!("{setup}{tail}")
+}
+
+/// the generated grid: every kind of state x every place the API lets a host put state x every way two
+/// threads can get at compiled code (plus a Rust-side `List<Val<_>>` shared directly).  A program must be
+/// rejected by rustc (for a Send / Sync reason) exactly when the state is not thread-safe.
+fn generated_probes() -> &'static Vec<GenProbe> {
+    static P: std::sync::OnceLock<Vec<GenProbe>> = std::sync::OnceLock::new();
+    P.get_or_init(|| {
+        let mut out = Vec::new();
+        for k in STATE_KINDS {
+            for h in HOLDERS {
+                let Some((items, setup)) = probe_holder(h, k) else { continue };
+                for r in ROUTES {
+                    out.push(GenProbe { name: format!("{}/{h}/{r}", k.0), must_reject: !k.5, src: format!("{items}fn main() {{\n{}}}\n", probe_route(r, &setup)) });
+                }
+            }
+            if k.4 {
+                let (_, ty, ctor, read, _, _) = *k;
+                let wrap = WRAP.replace("TY", ty);
+                let get = format!("l.get(0).map(|w| {{ let s = &w.0.0; {read} }})");
+                let head = format!("{wrap}fn main() {{\n    let l: List<Val<Wrap>> = List::new();\n    l.push(Val(Wrap({ctor})));\n");
+                out.push(GenProbe { name: format!("{}/rust-list/scope-ref", k.0), must_reject: !k.5, src: format!("{head}    std::thread::scope(|s| {{\n        s.spawn(|| {get});\n        s.spawn(|| {get});\n    }});\n}}\n") });
+                let get_m = get.replace("l.get", "m.get");
+                out.push(GenProbe { name: format!("{}/rust-list/clone-spawn", k.0), must_reject: !k.5, src: format!("{head}    let m = l.clone();\n    let t = std::thread::spawn(move || {get_m});\n    {get};\n    t.join().unwrap();\n}}\n") });
+            }
+        }
+        out
+    })
+}
+
+fn probe_count() -> usize {
+    PROBES.len() + generated_probes().len()
+}
+
+/// (name, must be rejected, text)
+fn probe_at(i: usize) -> (String, bool, String) {
+    let i = i % probe_count();
+    if i < PROBES.len() {
+        let p = &PROBES[i];
+        (p.name.to_string(), p.must_reject, p.src.to_string())
+    } else {
+        let p = &generated_probes()[i - PROBES.len()];
+        (p.name.clone(), p.must_reject, p.src.clone())
+    }
+}
+
+fn probe_index(case: &Case) -> usize {
+    let c = case.get(1).map(|c| c.as_slice()).unwrap_or(&[]);
+    match c {
+        [] => 0,
+        [a] => *a as usize,
+        [a, b, ..] => (*a as usize) * 256 + *b as usize,
+    }
+}
+
+const PRELUDE: &str = "use roto::{Runtime, library, Function, Constant, Type, Val, List, location};\nuse std::cell::{Cell, RefCell, OnceCell};\nuse std::rc::Rc;\nuse std::sync::{Arc, Mutex, RwLock, atomic::{AtomicI64, Ordering}};\n";
 
 const PROBES: &[Probe] = &[
     Probe {
@@ -184,7 +309,9 @@ fn newest_rlib(deps: &PathBuf, prefix: &str) -> Option<PathBuf> {
 }
 
 fn run_probe(i: usize) -> Outcome {
-    let p = &PROBES[i % PROBES.len()];
+    let (p_name, p_must_reject, p_src) = probe_at(i);
+    struct P<'a> { name: &'a str, must_reject: bool, src: &'a str }
+    let p = P { name: &p_name, must_reject: p_must_reject, src: &p_src };
     let root = crate::runner::verif_root();
     let deps = root.join("harness/target/release/deps");
     let Some(rlib) = newest_rlib(&deps, "libroto-") else {
@@ -233,8 +360,7 @@ fn run_probe(i: usize) -> Outcome {
 impl WorkerState for W {
     fn render_only(&mut self, case: &Case) -> String {
         if case.first().map(|c| c.as_slice()) == Some(b"#!probe") {
-            let i = case.get(1).and_then(|c| c.first().copied()).unwrap_or(0) as usize;
-            return PROBES[i % PROBES.len()].src.to_string();
+            return probe_at(probe_index(case)).2;
         }
         let empty: Vec<u8> = Vec::new();
         let prog = self.program(case.first().unwrap_or(&empty), case.get(1).unwrap_or(&empty));
@@ -243,8 +369,7 @@ impl WorkerState for W {
 
     fn run(&mut self, case: &Case, render: bool) -> Outcome {
         if case.first().map(|c| c.as_slice()) == Some(b"#!probe") {
-            let i = case.get(1).and_then(|c| c.first().copied()).unwrap_or(0) as usize;
-            return run_probe(i);
+            return run_probe(probe_index(case));
         }
         if case.get(2).and_then(|c| c.first()).map(|b| b % 4 == 3).unwrap_or(false) {
             return self.builtins_under_threads(case, render);
@@ -719,7 +844,7 @@ impl Prop for C12P {
         "C12"
     }
     fn rule(&self) -> String {
-        "(a) stress: generated programs of the ownership profile (strings, lists, records, tracked host values, host calls); 2-8 threads released by a barrier make 50-200 calls each on clones of one handle with rotating input vectors while 0-2 further threads compile the same script, get the function and drop package and handle; oracle: every call returns the single-threaded result and produces the single-threaded host-call log, tracked values balance after all threads joined, no crash (worker isolation). Non-trivial: at least two calling threads overlapped in time (start/end stamps) and the function allocates or calls a host function. (c) one case in four: the built-in catalogue of C17 (strings, views, lists incl. join, numbers, addresses) called from 2-4 pool threads at once, each with its own package, identical or different argument streams, every call compared with the documented meaning; (e) one case in eight: 3-8 threads x 5 000-40 000 calls of functions that only read String / List / record script constants (every call clones from storage all threads share); (d) one case in eight: 3-8 threads x 10-50 cycles of compile / get_function / clone / drop package / call / drop handle on one runtime whose registered closures and constants hold drop-tracked values: results right, nothing released while the runtime lives, everything released exactly once afterwards; (b) eleven rustc probes (Cell and RefCell captures shared through scoped threads or a cloned handle must be rejected, Rc control must be rejected, Atomic / Mutex / plain fn controls must be accepted), type-checked against the harness's libroto; distinct by program text / probe".into()
+        "(a) stress: generated programs of the ownership profile (strings, lists, records, tracked host values, host calls); 2-8 threads released by a barrier make 50-200 calls each on clones of one handle with rotating input vectors while 0-2 further threads compile the same script, get the function and drop package and handle; oracle: every call returns the single-threaded result and produces the single-threaded host-call log, tracked values balance after all threads joined, no crash (worker isolation). Non-trivial: at least two calling threads overlapped in time (start/end stamps) and the function allocates or calls a host function. (c) one case in four: the built-in catalogue of C17 (strings, views, lists incl. join, numbers, addresses) called from 2-4 pool threads at once, each with its own package, identical or different argument streams, every call compared with the documented meaning; (e) one case in eight: 3-8 threads x 5 000-40 000 calls of functions that only read String / List / record script constants (every call clones from storage all threads share); (d) one case in eight: 3-8 threads x 10-50 cycles of compile / get_function / clone / drop package / call / drop handle on one runtime whose registered closures and constants hold drop-tracked values: results right, nothing released while the runtime lives, everything released exactly once afterwards; (b) rustc probes type-checked against the harness's libroto: eleven hand-written ones and a generated grid of 396 small embedding programs = 13 kinds of host state (Cell, RefCell, Rc, OnceCell, raw pointer, mpsc Receiver, Rc<RefCell>, Arc<Cell> must be rejected for a Send / Sync reason; i64, Arc, Arc<Atomic>, Arc<Mutex>, Arc<RwLock> must be accepted) x 5 places the API lets a host keep state (closure registered with library!, closure registered with Function::new, value of a registered constant read by scripts, constant alone, registered Val type alone) x 6 ways for two threads to reach compiled code (scoped threads on &handle, cloned handle moved to a thread, into_func closure moved to a thread, two threads compiling on &Runtime, package moved to a thread while a handle stays, Arc<handle>), plus a Rust-side List<Val<_>> shared by reference and by clone; distinct by program text / probe".into()
     }
     fn assumptions(&self) -> Vec<String> {
         vec![
@@ -737,7 +862,7 @@ impl Prop for C12P {
         CaseShape::streams(&[500, 200, 8, 72, 72, 72, 72])
     }
     fn fixed_cases(&self, _tier: Tier) -> Vec<Case> {
-        (0..PROBES.len()).map(|i| vec![b"#!probe".to_vec(), vec![i as u8]]).collect()
+        (0..probe_count()).map(|i| if i < 256 { vec![b"#!probe".to_vec(), vec![i as u8]] } else { vec![b"#!probe".to_vec(), vec![(i / 256) as u8, (i % 256) as u8]] }).collect()
     }
     fn worker(&self, excl: &[String]) -> Box<dyn WorkerState> {
         let mut prof = profile_for(Kind::C03, excl);
